@@ -472,3 +472,9 @@ func inprocDialWaiting() {
 	census("inproc dial waiting vs listener close")
 	kit.Observe("d2=%s", kit.ErrName(d2.Err))
 }
+
+// Bodies re-run by C11 under the race-instrumented build.
+var RaceBodies = map[string]func(){
+	"c10-close-vs-dial-listen":  closeVsSetup,
+	"c10-inproc-dial-waiting":   inprocDialWaiting,
+}
